@@ -101,31 +101,58 @@ def gen_cases(rs, tier):
                       'thr': float(np.round(rs.uniform(0.6, 2.2), 4)), 'tail': TAILS[(t // 3) % 3], 'paired': False, 'k': int(rs.randint(40, 81)),
                       'seed': int(rs.randint(2 ** 31 - 1)), 'flavour': 'equal-groups', 'exp': 0, 'cexp': None, 'scale': 'unit',
                       'dtype': 'float64', 'order': 'C'})
-    # ---- long-diameter suprathreshold components: a Hamiltonian path of strong effects through randomly labelled nodes, n not a power of two
-    for t in range(16 if quick else 160):
-        n = (6, 7, 10, 11, 12, 13, 14, 15)[t % 8]
+    # ---- long-diameter suprathreshold components: a Hamiltonian path (or a spanning tree) of strong effects, n = 6 .. 65 incl. 32/33/34, 51, 64/65
+    CH_N = (6, 7, 10, 11, 12, 13, 14, 15, 17, 24, 33, 34, 40, 51, 34, 36, 66, 68) if quick else (6, 7, 10, 11, 12, 13, 14, 15, 16, 17, 24, 32, 33, 34, 36, 40, 51, 55, 64, 65)
+    for t in range(len(CH_N) if quick else 200):
+        n = CH_N[t % len(CH_N)]
         paired = (t % 4 == 3)
         nx = int(rs.randint(4, 7)); ny = nx if paired else nx + 1
         x = rs.randint(0, 4, size=(n, n, nx)).astype(float); y = rs.randint(0, 4, size=(n, n, ny)).astype(float)
         for a_ in (x, y):
             for s_ in range(a_.shape[2]):
                 a_[:, :, s_] = np.triu(a_[:, :, s_], 1) + np.triu(a_[:, :, s_], 1).T
-        order = rs.permutation(n)
-        cut = int(rs.randint(2, n - 2)) if t % 3 == 2 else None          # sometimes two chains
+        mode = t % 3                      # 0: node labels along the chain, 1: reversed, 2: random labels
+        order = np.arange(n) if mode == 0 else (np.arange(n)[::-1] if mode == 1 else rs.permutation(n))
+        shape = 'tree' if t % 5 == 4 else 'chain'
+        cut = int(rs.randint(2, n - 2)) if (t % 7 == 6 and shape == 'chain') else None          # sometimes two chains
         sgn = 1 if t % 2 else -1
         for q in range(n - 1):
             if cut is not None and q == cut:
                 continue
-            i, j = int(order[q]), int(order[q + 1])
-            dlt = sgn * int(rs.randint(12, 18))
+            i = int(order[q]) if shape == 'chain' else int(order[int(rs.randint(max(0, q - 2), q + 1))])   # tree: attach to one of the last three
+            j = int(order[q + 1])
+            dlt = sgn * (int(rs.randint(12, 18)) if n <= 17 else int(rs.randint(28, 36)))
             x[i, j, :] += dlt; x[j, i, :] += dlt
         mn = min(x.min(), y.min())
         if mn < 0:
             x -= mn; y -= mn
         cases.append({'n': n, 'nx': nx, 'ny': ny, 'x': x.astype(int).tolist(), 'y': y.astype(int).tolist(),
-                      'thr': float(np.round(rs.uniform(4.5, 6.5), 4)), 'tail': ('both', 'right' if sgn > 0 else 'left')[t % 2] if True else 'both', 'paired': paired,
-                      'k': int(rs.randint(10, 21)), 'seed': int(rs.randint(2 ** 31 - 1)), 'flavour': 'chain', 'exp': 0, 'cexp': None, 'scale': 'unit',
+                      'thr': float(np.round(rs.uniform(4.5, 6.5) if n <= 17 else rs.uniform(9.0, 11.0), 4)),   # large n: no accidental shortcut edge
+                      'tail': ('both', 'right' if sgn > 0 else 'left')[t % 2], 'paired': paired,
+                      'k': int(rs.randint(10, 21)) if n <= 17 else int(rs.randint(4, 8)), 'seed': int(rs.randint(2 ** 31 - 1)), 'flavour': 'chain', 'exp': 0, 'cexp': None, 'scale': 'unit',
                       'dtype': 'float64', 'order': 'C'})
+    # ---- more than 64 connections (n >= 12), unequal groups, connections with the same non-dyadic constant in every subject of both groups:
+    #      the null replay (every recorded relabelling) is judged by the exact rational oracle
+    SZ = ((3, 5), (5, 3), (4, 9), (3, 7), (7, 4), (6, 7), (5, 8))
+    for t in range(14 if quick else 140):
+        n = (12, 13, 16, 12, 17, 14, 24)[t % 7] if not quick else (12, 13, 16, 12, 14, 12, 17)[t % 7]
+        nx, ny = SZ[t % len(SZ)]
+        x, y, eff = gen_data(rs, n, nx, ny, False, 'plain')
+        x = x.astype(np.int64).astype(object); y = y.astype(np.int64).astype(object)
+        edges = [(i, j) for i in range(n) for j in range(i + 1, n)]
+        rs.shuffle(edges)
+        ce = np.zeros((n, n), dtype=int)
+        for (i, j) in edges[:int(rs.randint(2, 6))]:
+            cst = int(Fraction(float((0.1, 0.3, 0.7)[int(rs.randint(3))])) * 2 ** 55)
+            ce[i, j] = ce[j, i] = -55
+            for s_ in range(nx):
+                x[i, j, s_] = x[j, i, s_] = cst
+            for s_ in range(ny):
+                y[i, j, s_] = y[j, i, s_] = cst
+        cases.append({'n': n, 'nx': nx, 'ny': ny, 'x': [[[int(v) for v in r] for r in pl] for pl in x.tolist()],
+                      'y': [[[int(v) for v in r] for r in pl] for pl in y.tolist()], 'thr': float(np.round(rs.uniform(0.5, 1.8), 4)),
+                      'tail': ('both', 'both', 'left', 'right')[t % 4], 'paired': False, 'k': int(rs.randint(8, 13)), 'seed': int(rs.randint(2 ** 31 - 1)),
+                      'flavour': 'const-nd-big', 'exp': 0, 'cexp': ce.tolist(), 'scale': 'unit', 'dtype': 'float64', 'order': 'C', 'exact': True})
     # ---- exactly judged flavours (rational oracle, no tolerance, no near-threshold skip)
     def nd(v):          # the float v as integer * 2^-55
         f = Fraction(float(v)) * 2 ** 55
@@ -445,7 +472,7 @@ def run_case(c):
     if orc['near']:
         out['skipped'] = True
         return out
-    out['line'] = line
+    out['line'] = line if n <= 16 else None      # the Lean model replays cases up to 16 nodes; larger ones are judged by the oracle only
     # Known defect (known_findings.d/C19.json): in the two-sample test an edge that is constant within each group with different group
     # means has t = +-inf, bct's `denom == 0 -> 0` gives 0.  A failure is attributed to it only if the real output equals what the
     # oracle predicts under exactly that convention (E_conv / null_conv) and differs from the true one only through +-inf cells.
